@@ -71,6 +71,12 @@ for _stmt, _want, _find, _why in (
         ("ga()[gi(0)][gi(1)] = gv(\"Z\")", "(s:76);(s:61);(s:69);(s:69)", "store-back-reevaluates-target", "a store into a character of a string held in a list slot (the new string is stored back)"),
         ("ga()[gi(0)][gi(2)] = gv(\"Z\")", "(s:76);(s:61);(s:69);(s:69)", "store-back-reevaluates-target", "an append to a string held in a list slot")):
     EXPECT.append({"src": _TGT + _stmt + "\nnil", "field": "trace", "want": _want, "finding": _find, "why": "assignment target: " + _why + " evaluates the operands of the target exactly once"})
+# the same for a field of a struct value held in a list slot: the changed struct is stored back
+_TGS = "sl = [make(struct { A int64 })]; ts = make([]struct { A int64 }, 1)\nfunc gs() { probe(\"s\"); return sl }\nfunc gt() { probe(\"t\"); return ts }\nfunc gi(n) { probe(\"i\"); return n }\nfunc gv(x) { probe(\"v\"); return x }\n"
+EXPECT.append({"src": _TGS + "gt()[gi(0)].A = gv(5)\nnil", "field": "trace", "want": "(s:76);(s:74);(s:69)", "finding": None,
+               "why": "assignment target: a store into a field of an element of a typed slice evaluates the operands of the target exactly once"})
+EXPECT.append({"src": _TGS + "gs()[gi(0)].A = gv(5)\nnil", "field": "trace", "want": "(s:76);(s:73);(s:69)", "finding": "store-back-reevaluates-target",
+               "why": "assignment target: a store into a field of a struct value held in a list slot (the changed struct is stored back) evaluates the operands of the target exactly once"})
 
 
 def run(tier, seed, replay=None):
